@@ -249,7 +249,18 @@ impl RuntimeData {
         if crate::verif_hooks::quarantine() {
             unsafe {
                 std::ptr::drop_in_place(obj.as_ptr());
-                std::ptr::write_bytes(obj.as_ptr() as *mut u8, 0xDD, std::mem::size_of::<CaoLangObject>());
+                // tombstone: a valid object of a kind no live value of the harness has
+                std::ptr::write(
+                    obj.as_ptr(),
+                    CaoLangObject {
+                        marker: GcMarker::Black,
+                        body: CaoLangObjectBody::Upvalue(CaoLangUpvalue {
+                            location: std::ptr::null_mut(),
+                            value: Value::Nil,
+                            next: std::ptr::null_mut(),
+                        }),
+                    },
+                );
             }
             return;
         }
